@@ -19,7 +19,7 @@ ASSUMPTIONS = ["shape tolerance 1e-9 * exact magnitude scale", "knot vectors com
 
 @st.composite
 def ins_desc(draw):
-    k = draw(st.sampled_from(["in", "in", "knot", "knot", "other", "near", "decimal", "decimal", "again"]))
+    k = draw(st.sampled_from(["in", "in", "knot", "knot", "other", "near", "decimal", "decimal", "again", "within"]))
     return [k, draw(st.integers(0, 63)), draw(st.integers(1, 63)) / 64.0, draw(st.integers(0, 7))]
 
 
@@ -32,6 +32,19 @@ def pick_insert(p, kv, n, desc, others=(), again=()):
         s = sum(1 for k in kv if abs(k - u) <= 1e-7)          # the library identifies knots up to 1e-7
         if kv[p] < u < kv[n] and 1 <= s < p:
             return u, s, 1 + desc[3] % (p - s)
+    if desc[0] == "within":
+        # a parameter the library identifies with an existing interior knot (closer than its 10e-8 tolerance) without being
+        # bit-identical to it, e.g. 1 - 0.9 for the knot 0.1: it is that knot
+        inner = sorted(set(k for k in kv[p + 1:n] if kv[p] < k < kv[n]))
+        inner = [k for k in inner if sum(1 for x in kv if abs(x - k) <= 1e-7) < p and abs(k) < 4.0]
+        if not inner:
+            return None
+        k0 = inner[desc[1] % len(inner)]
+        u = k0 + (2.0 ** -25 if desc[3] % 2 else -2.0 ** -25)
+        s = sum(1 for x in kv if abs(x - u) <= 1e-7)
+        if u == k0 or not (1 <= s < p) or any(1e-7 < abs(x - u) < 1e-4 for x in kv):
+            return None
+        return u, s, 1 + desc[3] % (p - s)
     if desc[0] in ("decimal", "again"):
         # a parameter that is not a dyadic rational: a multiple of 1/7000 of the span width above the span start
         spans = [j for j in range(p, n) if kv[j] < kv[j + 1]]
@@ -152,7 +165,10 @@ def check_insert(case, ctx):
                 ctx.check(nkvs[k] == kvs[k] and nszs[k] == szs[k], "other-direction-changed",
                           "insertion in %r changed direction %d: kv %r -> %r, size %d -> %d" % (params, k, kvs[k], nkvs[k], szs[k], nszs[k]))
             else:
-                want = sorted(kvs[k] + [params[k]] * nums[k])
+                near_ = [x for x in kvs[k] if abs(x - params[k]) <= 1e-7]
+                stored_ = min(near_, key=lambda x: abs(x - params[k])) if near_ else params[k]          # a parameter identified with a knot is that knot
+                ctx.label("parameter-identified-with-a-knot-by-tolerance", bool(near_) and stored_ != params[k])
+                want = sorted(kvs[k] + [stored_] * nums[k])
                 ctx.check(shape.kv_close(nkvs[k], want), "knot-vector",
                           "after inserting %r x%d (dir %d) the knot vector is %r, expected %r" % (params[k], nums[k], k, nkvs[k], want))
                 ctx.check(nszs[k] == szs[k] + nums[k], "net-size",
@@ -263,6 +279,9 @@ def check_helper(case, ctx):
         ctx.label("no-op-case")
         return
     u, s, r = pick
+    # the helper is told multiplicity and span explicitly: both are the exact ones of the float u (a parameter 3e-8 away from a
+    # knot is, at this level, a new knot; identifying it with its neighbour is the business of the operations layer)
+    s = shape.multiplicity(kv, u)
     pts = build.homogeneous(d["P"], d["W"]) if d["rational"] else [list(q) for q in d["P"]]
     rows = case["rows"]
     if rows:
